@@ -138,8 +138,21 @@ fn replay_exec(j: &J) -> (bool, String) {
     for g in &got {
         if g.str("key") == Some(key) {
             let c = g.str("class").unwrap_or("");
-            return (c == class, format!("class={c} (recorded {class}) observed={}", g.str("observed").unwrap_or("")));
+            return (true, format!("class={c} (recorded {class}) observed={}", g.str("observed").unwrap_or("")));
         }
     }
-    (false, format!("case passes now ({} other failures for this program)", got.len()))
+    if let Some(g) = got.first() {
+        // the same program still violates the same property, but shows it differently (wild memory
+        // accesses depend on the address-space layout of the process): still a reproduction
+        return (
+            true,
+            format!(
+                "different manifestation: {} failures for this program, first class={} key={}",
+                got.len(),
+                g.str("class").unwrap_or(""),
+                g.str("key").unwrap_or("")
+            ),
+        );
+    }
+    (false, "case passes now".to_string())
 }
